@@ -4,13 +4,14 @@ import "time"
 
 func init() {
 	plans["C18"] = Plan{Prop: "C18", Level: "exploration",
-		Rule: "seeded cases = MultiSource job (main + 1-2 declared join paths of 1-3 hops, every direction mix, intermediate link datasets, sometimes through the main dataset or with one predicate on two hops; declared in JSON, via track_queries of a JS transform, or both; +-LatestOnly; batch size 1..5; first run fullsync or incremental; dataset creation order shuffled; sometimes a dependency / link dataset empty at the first run) + 3-5 rounds of writes to main / link / dependency datasets (new entities, rewiring, unlinking, tombstones, identical rewrites, ids shared between datasets). After every round the job runs until a successful run leaves the persisted MultiDatasetContinuation unchanged; the recording HTTP sink sees every emitted entity; the reference model computes the required set (smallest reading). Every history is executed fault-free first; then, as further cases, with the sink refusing (400) the k-th request of the first catch-up run of the round that made most requests (quick: 3 values of k, thorough: every k) - after a failed run the direct monitor checks that no dependency token moved past a change whose connected main entities were not delivered. Non-trivial = in some round >=1 a dependency / link change reaches >=1 main entity that did not change itself (measured on the model)",
+		Rule: "seeded cases = MultiSource job (main + 1-2 declared join paths of 1-3 hops, every direction mix, intermediate link datasets, sometimes through the main dataset or with one predicate on two hops; declared in JSON, via track_queries of a JS transform, or both; +-LatestOnly; batch size 1..5; first run fullsync or incremental; dataset creation order shuffled; sometimes a dependency / link dataset empty at the first run) + 3-5 rounds of writes to main / link / dependency datasets (new entities, rewiring, unlinking, tombstones, identical rewrites, ids shared between datasets). After every round the job runs until a successful run leaves the persisted MultiDatasetContinuation unchanged; the recording HTTP sink sees every emitted entity; the reference model computes the required set (smallest reading). Every history is executed fault-free first; then, as further cases, with the sink refusing (400) the k-th request of the first catch-up run of the round that made most requests (quick: 3 values of k, thorough: every k) - after a failed run the direct monitor checks that no dependency token moved past a change whose connected main entities were not delivered. Every clean history is also executed with one generated write (spare write of a round: dependency / link entity changed, link added or removed, sometimes a main entity) performed WHILE a run is in progress, by the job's goroutine right after a PRNG-chosen batch was handed to the sink (hook points pipeline.full.afterSink / pipeline.incr.afterSink): first run of the job (explicit or implicit full sync), incremental runs, an explicit fullsync run later in the history; then every main entity connected now to what that write changed must be delivered in a batch AFTER the write before the tokens stop moving, and a dependency token that passed that change at the end of the run means the connected main entities were delivered after the write. Non-trivial = in some round >=1 a dependency / link change reaches >=1 main entity that did not change itself (measured on the model)",
 		Assumptions: []string{
 			"only under-emission is a violation; over-emission is legal",
 			"smallest required set: a hop counts only when the reference is carried by the latest live version of the referencing entity in its natural dataset; a required main entity is live in the main dataset",
 			"intermediate join datasets other than the main dataset count as dependency datasets (implicit dependencies); a path through the main dataset does not make main a dependency",
 			"'as it stood at the previous run' = the state when the job had last caught up (previous token fixpoint); only the first hop, only when it is outgoing",
-			"no write happens while a run is in progress; failed runs (injected sink failure) do not count as catching up",
+			"writes happen between runs, except the one scripted write of a write-during-run case, which happens between two batches (never inside a sink call); a run during which the graph changed does not count as catching up, nor does a failed run (injected sink failure)",
+			"for a change written during a run only the links as they stand after the write are required ('previous run' is not defined for it); histories with a path through the main dataset get no write-during-run cases",
 			"emitted bodies are compared with the main dataset's versions only when no JS transform is configured (ids are always checked)",
 			"a miss explained by a mis-reported incoming hop of the store is attributed to the open C03 findings (class via-C03-incoming)",
 			"the reference model (harness/model) is written from the property statements and trusted",
@@ -18,7 +19,7 @@ func init() {
 		Stages: func(tier string) []Stage {
 			n, c := 8, 60
 			if tier == "thorough" {
-				n, c = 128, 40
+				n, c = 96, 30
 			}
 			return []Stage{{Name: "multi", Scenario: "c18multi", Children: n, Cases: c, Timeout: 25 * time.Minute}}
 		},
